@@ -70,6 +70,37 @@ func init() {
 	addRules("C19", "R-SIZEPAIR")
 	addRules("C20", "R-TXPAIR")
 	addRules("C21", "R-RAWREAD")
+	for _, id := range []string{"C05", "C06", "C07", "C08", "C13"} {
+		addRules(id, "R-APPLY-ALL")
+	}
+	reg("R-APPLY-ALL", "No condition that controls a commit-time or open-time applier call (in the applier or along its call chain up to the record loop) reads a map that is not a struct field: whether a committed record is applied depends on the record itself, not on a side table computed from other records.", ruleApplyAll)
+	addRules("C04", "R-EOD-SIGNAL")
+	addRules("C09", "R-EOD-SIGNAL", "R-TRUNC-GROW", "R-CAPACITY-AGREE", "R-OPEN-ALLSEGS")
+	addRules("C05", "R-TRUNC-GROW")
+	addRules("C08", "R-TRUNC-GROW", "R-EOD-SIGNAL")
+	addRules("C19", "R-TRUNC-GROW", "R-CAPACITY-AGREE")
+	addRules("C10", "R-OPEN-ALLSEGS")
+	addRules("C11", "R-OPEN-ALLSEGS")
+	reg("R-EOD-SIGNAL", "Every (nil entry, nil error) return of DataFile.ReadAt is dominated by the true edge of Entry.IsZero on the decoded header: only the all-zero header means end of data.", ruleEODSignal)
+	reg("R-TRUNC-GROW", "Every (*os.File).Truncate(capacity) call in the module is dominated by size < capacity (size from FileInfo.Size): opening a segment only grows it.", ruleTruncGrow)
+	reg("R-CAPACITY-AGREE", "A comparison in the entry decoder (or a helper it calls) whose linear form is offset + Entry.Size() - <DataFile field> rejects only on > 0: a record may end exactly at the capacity, as the writer's rotation test allows.", ruleCapacityAgree)
+	reg("R-OPEN-ALLSEGS", "In the function of Open's cone that lists the segment ids and hands them to the segment parser, no path reaches a success return without the parser call unless it passes the edge on which the listing is nil/empty.", ruleOpenAllSegs)
+	addRules("C15", "R-MERGE-PRESERVE", "R-MERGE-KEEPORDER")
+	addRules("C03", "R-MERGE-PRESERVE")
+	addRules("C01", "R-MERGE-PRESERVE")
+	addRules("C07", "R-MERGE-KEEPORDER")
+	addRules("C05", "R-MERGE-KEEPORDER")
+	reg("R-MERGE-PRESERVE", "Every argument of the pending-write gate call in the merge rewrite step is a load of the corresponding stored field (bucket, key, value, TTL, flag, timestamp, ds) of the one entry being rewritten.", ruleMergePreserve)
+	reg("R-MERGE-KEEPORDER", "In the cone of Merge (outside the commit path) entry slices are only appended to: no store replaces an element already collected, so rewritten records keep log order.", ruleMergeKeepOrder)
+	addRules("C01", "R-SIZEPAIR")
+	addRules("C02", "R-CODEC")
+	addRules("C03", "R-ORDER")
+	addRules("C04", "R-LOGGED")
+	addRules("C05", "R-OWN", "R-ATOMIC-DS", "R-MARKER")
+	addRules("C06", "R-ATOMIC-DS", "R-MARKER")
+	addRules("C07", "R-OWN", "R-ATOMIC-DS", "R-MARKER")
+	addRules("C08", "R-RWBOUNDS", "R-SIZEPAIR")
+	reg("R-ATOMIC-DS", "R-ATOMIC restricted to publications into the list/set/sorted-set indexes: in Tx.Commit no call that reaches a list/set/sorted-set mutator is followed on a feasible path by a return of a non-nil error.", ruleAtomicDS)
 	for _, id := range []string{"C11", "C12", "C15", "C16", "C17", "C18"} {
 		addRules(id, "R-MERGING-SCOPE")
 	}
